@@ -113,3 +113,13 @@ Fixpoint quote_body (v : string) : string :=
       else String a (quote_body r)
   end.
 Definition quote (v : string) : string := String "034" (quote_body v).
+
+(** * The old-enum-conflicts arm of GenerateGoSchema: the name of the constant is the path of the schema joined
+      with the key; the key of the empty VALUE is replaced by Empty whatever the earlier stages called it.
+      [pathname] = SchemaNameToTypeName . PathToTypeName (path ++ [.]) is a parameter. *)
+Definition old_key (kv : string * string) : string :=
+  if String.eqb (snd kv) "" then "Empty" else fst kv.
+Definition stage3_old (pathname : string -> string) (order : list (string * string)) : list (string * string) :=
+  build (map (fun kv => (pathname (old_key kv), snd kv)) order).
+Definition enum_constants_old (norm pathname : string -> string) (names values : list string) : list (string * string) :=
+  stage3_old pathname (stage2 norm (stage1 [] (combine names values))).
